@@ -8,13 +8,15 @@ import (
 	"math/rand"
 	"net"
 	"net/netip"
+	"reflect"
 	"strconv"
 	"strings"
 
 	xmpp "gosrc.io/xmpp"
 )
 
-// C20: ensurePort / NewClientTransport / NewComponentTransport vs Model/Addr.v
+// C20: ensurePort / NewClientTransport / NewComponentTransport / WebsocketTransport.IsSecure /
+// NewChecker vs Model/Addr.v
 type c20In struct {
 	Addr  string `json:"addr"`
 	Port  int    `json:"port"`            // second argument given to ensurePort (the constructors always use 5222)
@@ -32,10 +34,10 @@ func (c20) ID() string    { return "C20" }
 func (c20) RunFn() string { return "run_C20" }
 func (c20) Workers() int  { return 8 }
 func (c20) Rule() string {
-	return "structured addresses: DNS names (digit/hyphen labels, single label, trailing dot, xn--), IPv4, IPv6 (8 groups, :: at every position and run length, embedded and mapped IPv4, %zone, mixed case) bare or bracketed, x port absent/present, x ensurePort port argument in {5222,0,negative,large}; every port 0..65535 for one host per form (thorough; a sample in quick); all strings of length <= 4 (thorough: <= 5) plus random strings of length <= 8 over {a : [ ] . 1 w s /}; distinct = distinct (address, port argument); non-trivial = structured form, or a raw string containing ':' '[' or ']'"
+	return "structured addresses: DNS names (digit/hyphen labels, single label, trailing dot, xn--), IPv4, IPv6 (8 groups, :: at every position and run length, embedded and mapped IPv4, %zone, mixed case) bare or bracketed, x port absent/present, x ensurePort port argument in {5222,0,negative,large}; every port 0..65535 for one host per form (thorough; a sample in quick); all strings of length <= 4 (thorough: <= 5) plus random strings of length <= 8 over {a : [ ] . 1 w s / W S}; ws/wss URLs with the scheme in every letter case, hosts named ws/wss (any case) with ports; distinct = distinct (address, port argument); non-trivial = structured form, or a raw string containing ':' '[' or ']'"
 }
 
-const c20Alphabet = "a:[].1ws/"
+const c20Alphabet = "a:[].1ws/WS"
 
 var c20PortArgs = []int{5222, 0, -1, 80, 443, 65535, 65536, -5222, 7, 10, 1 << 40, math.MaxInt64, math.MinInt64}
 
@@ -47,7 +49,7 @@ func c20Label(r *rand.Rand) string {
 	case 1:
 		return "xn--" + string(an[r.Intn(26)]) + strconv.Itoa(r.Intn(100))
 	case 2:
-		return []string{"ws", "wss", "w", "wsx", "localhost", "a"}[r.Intn(6)]
+		return []string{"ws", "wss", "w", "wsx", "localhost", "a", "WS", "Wss"}[r.Intn(8)]
 	}
 	n := 1 + r.Intn(8)
 	b := make([]byte, n)
@@ -197,14 +199,16 @@ func (c20) Gen(r *rand.Rand, tier string) []interface{} {
 	// fixed corners: scheme prefixes, the ws/wss host names, degenerate brackets
 	for _, s := range []string{"", "ws:", "wss:", "ws://example.com/ws", "wss://example.com:5443/ws", "ws://[::1]:80/x",
 		"ws:/x", "wss", "ws", "w", "wsx://a", "WS://a", "Wss://a", " ws://a", "http://a", "tcp://a:1", "ws:a:b", "wss:::",
+		"ws://", "wss://", "WSS://", "wS://a", "wSs://[::1]:5443/ws", "WS:5222", "ws:5222", "wss:5347", "ws:/", "ws//a", "ws:a", "://a", "xws://a", "w://a", "s://a",
+		"w\u017f://a", "w\u017fs://a", "\u212aws://a", "ws\u2236//a", "ws:\u2215/a", "ws://a://b", "a://ws://b", "wss://ws://b",
 		"[", "]", "[]", "[]:", "[]:1", "[::1]:", ":", "::", ":::", ":1", "a:", "[a", "[a]b", "[a]b:1", "[a]:b:1", "[a]::1", "a]:1", "a[:1",
 		"[[::1]]", "[[::1]]:1", "[::1]]:1", "[::1][:1", "[::1]:1]", "::1:5222", "[::1]:5222:1", "example.com:5222:1",
 		"host:port", "host: 1", "h\x00st", "h\x00st:1", "ünï.example", "ünï.example:5222"} {
 		raw(s, 5222)
 		raw(s, c20PortArgs[r.Intn(len(c20PortArgs))])
 	}
-	for _, h := range []string{"ws", "wss"} {
-		for _, p := range []string{"5222", "80", "0"} {
+	for _, h := range []string{"ws", "wss", "WS", "Wss", "wS", "wsS"} {
+		for _, p := range []string{"5222", "80", "0", "5347", "65535"} {
 			out = c20Forms(out, "name", h, 5222, p)
 		}
 	}
@@ -232,6 +236,37 @@ func (c20) Gen(r *rand.Rand, tier string) []interface{} {
 		for _, pa := range c20PortArgs {
 			out = c20Forms(out, "v6", h, pa, "5222")
 		}
+	}
+
+	// ws / wss URLs, scheme in a random letter case, over every host form
+	nu := 400
+	if thorough {
+		nu = 8000
+	}
+	for i := 0; i < nu; i++ {
+		sch := []byte([]string{"ws", "wss", "ws", "wss", "w", "wsss", "sw", "http"}[r.Intn(8)])
+		for j := range sch {
+			if r.Intn(2) == 0 {
+				sch[j] -= 32
+			}
+		}
+		var host string
+		switch r.Intn(4) {
+		case 0:
+			host = c20V4(r)
+		case 1:
+			host = "[" + c20RandV6(r) + "]"
+		default:
+			host = c20Name(r)
+		}
+		if r.Intn(2) == 0 {
+			host += ":" + c20EPort(r)
+		}
+		sep := "://"
+		if r.Intn(12) == 0 {
+			sep = []string{":", ":/", "//", ":///", "::/"}[r.Intn(5)]
+		}
+		raw(string(sch)+sep+host+[]string{"", "/", "/xmpp-websocket", "/ws/"}[r.Intn(4)], 5222)
 	}
 
 	// random structured hosts
@@ -354,9 +389,21 @@ func c20Transport(t xmpp.Transport, err error) Sx {
 	case *xmpp.XMPPTransport:
 		return L(Z(0), SBytes(x.Config.Address), c20Split(x.Config.Address))
 	case *xmpp.WebsocketTransport:
-		return L(Z(1), SBytes(x.Config.Address))
+		return L(Z(1), SBytes(x.Config.Address), B(x.IsSecure()))
 	}
 	return L(Z(9), SBytes(fmt.Sprintf("%T", t)))
+}
+
+// c20Checker: NewChecker(addr, "") as (1) for an error or (0 address domain split-of-address);
+// the two fields are unexported strings, read through reflection.
+func c20Checker(addr string) Sx {
+	sc, err := xmpp.NewChecker(addr, "")
+	if err != nil {
+		return L(Z(1))
+	}
+	v := reflect.ValueOf(sc).Elem()
+	a, d := v.FieldByName("address").String(), v.FieldByName("domain").String()
+	return L(Z(0), SBytes(a), SBytes(d), c20Split(a))
 }
 
 func (c20) Run(inp interface{}) Sx {
@@ -364,7 +411,7 @@ func (c20) Run(inp interface{}) Sx {
 	ep := xmpp.VerifEnsurePort(in.Addr, in.Port)
 	ct := xmpp.NewClientTransport(xmpp.TransportConfiguration{Address: in.Addr})
 	pt, err := xmpp.NewComponentTransport(xmpp.TransportConfiguration{Address: in.Addr})
-	return L(SBytes(ep), c20Split(ep), c20Split(in.Addr), c20Transport(ct, nil), c20Transport(pt, err))
+	return L(SBytes(ep), c20Split(ep), c20Split(in.Addr), c20Transport(ct, nil), c20Transport(pt, err), c20Checker(in.Addr))
 }
 
 func (c20) Input(inp interface{}) Sx {
@@ -375,7 +422,7 @@ func (c20) Input(inp interface{}) Sx {
 // Direct oracle (no model): the property's own predicate on what was observed.
 func (c20) Oracle(inp interface{}, obs Sx) (string, string) {
 	in := inp.(c20In)
-	if len(obs.L) != 5 {
+	if len(obs.L) != 6 {
 		return "observation shape", "shape"
 	}
 	client, comp := obs.L[3], obs.L[4]
@@ -385,20 +432,23 @@ func (c20) Oracle(inp interface{}, obs Sx) (string, string) {
 		}
 		return t.L[0].Z
 	}
-	scheme := strings.HasPrefix(in.Addr, "ws:") || strings.HasPrefix(in.Addr, "wss:")
+	scheme, secure := c20WsURL(in.Addr)
 	if scheme {
 		if kind(client) != 1 || string(bytesOf(client.L[1])) != in.Addr {
-			return fmt.Sprintf("%q: ws:/wss: address must give the WebSocket transport with the address untouched", in.Addr), "scheme-client"
+			return fmt.Sprintf("%q is a URL with the ws/wss scheme: NewClientTransport must give the WebSocket transport with the address untouched (got kind %d)", in.Addr, kind(client)), "scheme-client"
 		}
 		if kind(comp) != 2 {
-			return fmt.Sprintf("%q: ws:/wss: address must be refused for components with ErrTransportProtocolNotSupported", in.Addr), "scheme-component"
+			return fmt.Sprintf("%q is a URL with the ws/wss scheme: NewComponentTransport must refuse it with ErrTransportProtocolNotSupported (got kind %d)", in.Addr, kind(comp)), "scheme-component"
+		}
+		if len(client.L) != 3 || (client.L[2].Z == 1) != secure {
+			return fmt.Sprintf("%q: WebsocketTransport.IsSecure must be %v", in.Addr, secure), "scheme-secure"
 		}
 	} else {
 		if kind(client) != 0 {
-			return fmt.Sprintf("%q: no ws:/wss: prefix, NewClientTransport must return the XMPP (TCP) transport", in.Addr), "noscheme-client"
+			return fmt.Sprintf("%q is not a ws:// or wss:// URL: NewClientTransport must return the XMPP (TCP) transport (got kind %d)", in.Addr, kind(client)), "noscheme-client"
 		}
 		if kind(comp) != 0 {
-			return fmt.Sprintf("%q: no ws:/wss: prefix, NewComponentTransport must return the XMPP (TCP) transport", in.Addr), "noscheme-component"
+			return fmt.Sprintf("%q is not a ws:// or wss:// URL: NewComponentTransport must return the XMPP (TCP) transport (got kind %d)", in.Addr, kind(comp)), "noscheme-component"
 		}
 	}
 	if in.Form == "raw" {
@@ -455,7 +505,44 @@ func (c20) Oracle(inp interface{}, obs Sx) (string, string) {
 			return m, s
 		}
 	}
+	// the certificate checker takes the same address forms
+	chk := obs.L[5]
+	want = "5222"
+	if in.HasP {
+		want = in.EPort
+	}
+	if kind(chk) != 0 || len(chk.L) != 4 {
+		return fmt.Sprintf("NewChecker(%q) refuses the address", in.Addr), "checker-refuses-" + shape
+	}
+	if m, s := valid("checker dial address", chk.L[3], want, "checker"); m != "" {
+		return m, s
+	}
+	if d := string(bytesOf(chk.L[2])); d != in.Host {
+		return fmt.Sprintf("NewChecker(%q) takes %q for the host, expected %q", in.Addr, d, in.Host), "checker-domain-" + shape
+	}
 	return "", ""
+}
+
+// c20WsURL: is a a URL whose scheme (the part before the first "://"), compared without
+// regard to ASCII letter case (RFC 3986 3.1), is ws or wss; secure = wss.
+func c20WsURL(a string) (ws, secure bool) {
+	i := strings.Index(a, "://")
+	if i < 0 {
+		return false, false
+	}
+	b := []byte(a[:i])
+	for j, c := range b {
+		if 'A' <= c && c <= 'Z' {
+			b[j] = c + 'a' - 'A'
+		}
+	}
+	switch string(b) {
+	case "ws":
+		return true, false
+	case "wss":
+		return true, true
+	}
+	return false, false
 }
 
 func (c20) Key(inp interface{}) (string, bool) {
@@ -481,8 +568,14 @@ func (c20) Key(inp interface{}) (string, bool) {
 		}
 	}
 	hist("form:" + cls)
-	if strings.HasPrefix(in.Addr, "ws:") || strings.HasPrefix(in.Addr, "wss:") {
-		hist("scheme-prefixed")
+	if ws, _ := c20WsURL(in.Addr); ws {
+		hist("ws-url")
+		if !strings.HasPrefix(in.Addr, "ws") {
+			hist("ws-url-upper-case")
+		}
+	}
+	if in.Form == "name" && in.HasP && (strings.EqualFold(in.Host, "ws") || strings.EqualFold(in.Host, "wss")) {
+		hist("host-named-ws-with-port")
 	}
 	switch {
 	case in.Port == 5222:
